@@ -73,6 +73,7 @@ func runC18(p *core.Prog, r *core.Result) {
 		"R18.13 the lone failed event for a missing dependency: Evaluate recognises a missing dependency by the dynamic type of the error it is handed (a type switch, not errors.As), so every function on LoadTarget's path that produces an error of such a type returns it as it is on every path - a wrapper around it (fmt.Errorf with %w, to add a suggestion) is no longer recognised and the dependent emits no event at all",
 		"R18.14 one evaluating/terminal pair per target and run: the runner creates one target object per label - runner.targetMap is touched only through LoadOrStore and newTarget only feeds it (C04's R4.3); a Load followed by a Store lets two requesters of a not-yet-seen dependency each start their own object for it, and the dependency is evaluated and reported twice",
 		"R18.15 output in order: what a target's own print() writes goes through the target's line buffer, like the output of the processes it runs - the Print callback of a target's thread writes to a *lineWriter and never invokes Events.Print itself (a line the buffer still holds back would otherwise be overtaken)",
+		"R18.16 output exactly once also when a target's commands write concurrently: stdout and stderr of a target are one lineWriter and the commands of a shell pipeline write to it at the same time, so its line buffer (lineWriter.line) is only touched with lineWriter.m held, and Write and Flush release the lock on every exit",
 		"R18.6 the partial-line buffer never retains (a slice of) the caller's chunk: it only grows by copying appends",
 		"R18.5 lineWriter.Write conserves bytes: the unconsumed chunk is cut only at its first newline (c[:nl], c[nl+1:]); the rest becomes the next cursor; per newline exactly one line is delivered - c[:nl] alone only where the buffer is known empty, otherwise the buffer after c[:nl] was appended; without a newline the whole rest is buffered",
 		"R18.4 whenever a lineWriter method hands its buffered partial line to Events.Print it resets the buffer before returning (no byte is delivered twice)",
@@ -613,6 +614,15 @@ func runC18(p *core.Prog, r *core.Result) {
 	// ---- R18.13 the error of a missing dependency arrives in the form Evaluate tests for
 	checkClassifiedErrorsUnwrapped(p, r, "R18.13")
 	checkTargetPrintThroughLineBuffer(p, r, "R18.15")
+	{
+		n := guarded(p, r, "R18.16", core.GuardSpec{Rel: "", Type: "lineWriter", Field: "line", Lock: "m"})
+		r.Floor("R18.16", n, 3, "accesses to lineWriter.line")
+		for _, name := range []string{"Write", "Flush"} {
+			if fn := p.Func("", "lineWriter", name); fn != nil {
+				lockBalanced(p, r, "R18.16", fn)
+			}
+		}
+	}
 	// ---- R18.14 one runner target per label (the obligations of C04's R4.3)
 	{
 		sub := core.NewResult("C04")
